@@ -71,6 +71,7 @@ ob("O-C08-big-big", ["C08"], J, "c08_big_cmp_big", "two big integers of any valu
 ob("O-C08-big-inf", ["C08"], J, "c08_big_cmp_inf", "a big integer of any value up to 128 bits against +/-Infinity, in both argument orders: -Infinity < every integer < Infinity, never equal", [NUM + "Num::cmp", NUM + "Num::eq"], composes_dependency=True, tier="thorough", timeout=3000)
 ob("O-C09-big-obs", ["C09", "C10"], J, "c09_big_observers", "for every big integer up to 128 bits: is_int; as_isize is Some(value) iff it fits a machine integer; as_pos_usize is (value >= 0, |value|) with zero non-negative, None beyond usize; a big integer that fits agrees with the machine integer of the same value (equal integers behave identically however stored)", [NUM + "Num::is_int", NUM + "Num::as_isize", NUM + "Num::as_pos_usize"], composes_dependency=True)
 ob("O-C09-from-integral", ["C09", "C14"], J, "c09_from_integral", "Num::from_integral / Val::from(usize): a machine integer when the value fits, else the big integer of exactly that value, for every u64, i128 and usize", [NUM + "Num::from_integral", LIB + "Val::from<usize>"], composes_dependency=True)
+ob("O-C09-saturate", ["C09", "C05"], J, "c09_bigint_saturated", "bigint_to_int_saturated (string repetition by a big integer): the value clamped into the machine-integer range, for every big integer up to 128 bits", [LIB + "bigint_to_int_saturated"], composes_dependency=True)
 ob("O-C09-big-points", ["C09"], J, "c09_big_points", "points: as_f64 of big 5 / -1, length (absolute value) of big -1 and -2^63-1, 2^70 is beyond every machine-sized observer", [NUM + "Num::as_f64", NUM + "Num::length"], label="point", kind="point", composes_dependency=True)
 ob("O-C09-big-arith", ["C09"], J, "c09_big_arith", "points: MAX+1, MIN-1, MIN+(-1), -MIN, MAX-(-1) take the exact big-integer value through the real fall-back; Int-BigInt, BigInt-Int, Int+BigInt, BigInt+Int, BigInt-BigInt, -BigInt with the operands in the order written (num-bigint executed on concrete operands)", [NUM + "Num::add", NUM + "Num::sub", NUM + "Num::neg", NUM + "int_or_big"], label="point", kind="point", composes_dependency=True, stubs=["_addcarry_u64", "_subborrow_u64"])
 
@@ -78,6 +79,9 @@ ob("O-C09-big-arith", ["C09"], J, "c09_big_arith", "points: MAX+1, MIN-1, MIN+(-
 for i, h in enumerate("0123456789abcdef"):
     quick = h in "0127"  # control characters, `"`, `\\` (0x5c is in block 5 -> thorough), DEL
     ob(f"O-C07-byte-{h}", ["C07"], J, f"c07_write_byte_{h}", f"write_byte! (with the fall-backs of write_utf8! / write_bytes!) writes each byte 0x{h}0..=0x{h}f inside a JSON string exactly as RFC 8259 section 7 prescribes (two-character escapes, \\u00XX for other control characters, the character itself otherwise; byte strings: \\xXX outside printable ASCII)", ["jaq-json/src/write.rs::write_byte!", "jaq-json/src/write.rs::write_utf8! (fall-back expression)", "jaq-json/src/write.rs::write_bytes! (fall-back expression)"], label="complete", kind="lemma", bound="", tier="quick" if quick else "thorough", timeout=900)
+
+for c, quick in (("00", False), ("1f", True), ("20", True), ("22", True), ("5c", False), ("7e", False), ("7f", True), ("80", False)):
+    ob(f"O-C07-utf8-{c}", ["C07"], J, f"c07_write_utf8_{c}", f"the whole write_utf8! macro (is_special predicate, splitting, write_byte!) on the one-byte text string [0x{c}]: quote, the escape RFC 8259 requires for that byte or the byte itself, quote", ["jaq-json/src/write.rs::write_utf8!", "jaq-json/src/write.rs::write_byte!"], label="point", kind="point", tier="quick" if quick else "thorough", timeout=900)
 
 # ------------------------------------------------------------------------------------ jaq-std (trait-contract instances, AnyVal)
 STD = "jaq-std/src/lib.rs::"
@@ -232,8 +236,8 @@ CFG = {
         },
         "C07": {
             "level": "other",
-            "explanation": "The writer half of the string round trip is finite: for each of the 256 byte values the real write_byte! macro (with the two fall-back expressions its callers pass) is run into a recording fmt::Write and compared with the escape RFC 8259 section 7 prescribes. Exhaustive over u8 in the thorough tier (16 harnesses of 16 bytes); the quick tier covers the control characters, the quote, and DEL / the first non-ASCII block. This decides 'what jaq writes for a string byte is what RFC 8259 says'; it does not decide the round trip.",
-            "not_decided": "the reader (hifijson lexer, parse_string), hence print-then-parse = id itself; the splitting logic of write_utf8! around special bytes; shortest-round-trip float printing (ryu), big-integer and decimal literals, key order (indexmap), nesting, indentation / sort_keys, the CLI path, agreement with an independent RFC 8259 parser",
+            "explanation": "The writer half of the string round trip is finite: for each of the 256 byte values the real write_byte! macro (with the two fall-back expressions its callers pass) is run into a recording fmt::Write and compared with the escape RFC 8259 section 7 prescribes. Exhaustive over u8 in the thorough tier (16 harnesses of 16 bytes); the quick tier covers the control characters, the quote, and DEL / the first non-ASCII block. This decides 'what jaq writes for a string byte is what RFC 8259 says'; it does not decide the round trip. The whole write_utf8! macro (predicate and splitting included) is additionally run at the boundaries of its is_special predicate (0x00, 0x1f, 0x20, 0x22, 0x5c, 0x7e, 0x7f, 0x80), one byte per harness: points.",
+            "not_decided": "the reader (hifijson lexer, parse_string), hence print-then-parse = id itself; the splitting logic of write_utf8! beyond one-byte strings at the listed boundary bytes; shortest-round-trip float printing (ryu), big-integer and decimal literals, key order (indexmap), nesting, indentation / sort_keys, the CLI path, agreement with an independent RFC 8259 parser",
             "assumptions": ["core::fmt (format_args!, LowerHex, char::escape_default) is executed as compiled on concrete bytes"],
         },
         "C11": {
